@@ -618,18 +618,40 @@ func ruleKRest(w *World, r *Report) {
 					r.ok("K-KEY", fnName(fn)+":cache", w.instrPos(c), "uses the package-level cache")
 				}
 			}
-			// result: type-asserted and returned under err == nil
+			// result: every value returned without an error is the cache's answer for the key
+			var fromGet func(v ssa.Value, d int) bool
+			fromGet = func(v ssa.Value, d int) bool {
+				if d > 6 {
+					return false
+				}
+				switch x := strip(v).(type) {
+				case *ssa.TypeAssert:
+					return fromGet(x.X, d+1)
+				case *ssa.Extract:
+					return x.Tuple == ssa.Value(c) && x.Index == 0
+				case *ssa.Phi:
+					for _, e := range x.Edges {
+						if !fromGet(e, d+1) {
+							return false
+						}
+					}
+					return len(x.Edges) > 0
+				}
+				return false
+			}
 			for _, b := range fn.Blocks {
 				ret, ok := normalReturn(b)
 				if !ok || len(ret.Results) != 2 {
 					continue
 				}
-				if ta, ok := strip(retVal(ret, 0)).(*ssa.TypeAssert); ok {
-					if ex, ok := ta.X.(*ssa.Extract); ok && ex.Tuple == ssa.Value(c) && ex.Index == 0 {
-						r.ok("K-KEY", fnName(fn)+":result", w.instrPos(ret), "returns the cached value for the key")
-					} else {
-						r.bad("K-KEY", fnName(fn)+":result", w.instrPos(ret), "returns a value that is not the cache's answer for the key")
-					}
+				v0 := strip(retVal(ret, 0))
+				if k0, ok := v0.(*ssa.Const); ok && k0.Value == nil {
+					continue // the error return
+				}
+				if fromGet(v0, 0) {
+					r.ok("K-KEY", fnName(fn)+":result", w.instrPos(ret), "returns the cached value for the key")
+				} else {
+					r.bad("K-KEY", fnName(fn)+":result", w.instrPos(ret), "returns a value that is not the answer of the pattern cache for this key (a second store beside the cache: outside its capacity accounting, and not replaced with it)")
 				}
 			}
 		})
@@ -1025,4 +1047,80 @@ func (w *World) fieldStoredInMethods(nt *types.Named, f *types.Var) bool {
 		})
 	}
 	return found
+}
+
+// ---------- K-SHARED ----------
+
+// ruleKShared: what the cache hands out is shared by every goroutine and
+// every later evaluation that asks for the same pattern. *regexp.Regexp is
+// safe for concurrent use "except for configuration methods, such as Longest"
+// (package documentation): a configuration method applied to a regexp that
+// did not come out of regexp.Compile* in the same function changes how every
+// other user of that pattern matches, and races with them.
+func ruleKShared(w *World, r *Report) {
+	r.rule("K-SHARED", "a configuration method of *regexp.Regexp (Longest: the only method of the type documented as not safe for concurrent use) is applied only to a regexp compiled in the same function, never to one obtained from the pattern cache or from another function; fields of a regexp are not written (S-WRITES)")
+	config := map[string]bool{"Longest": true}
+	n := 0
+	for _, fn := range w.AllFuncs {
+		eachInstr(fn, false, func(_ *ssa.Function, in ssa.Instruction) {
+			c, ok := in.(ssa.CallInstruction)
+			if !ok {
+				return
+			}
+			callee := c.Common().StaticCallee()
+			if callee == nil || callee.Pkg == nil || callee.Pkg.Pkg.Path() != "regexp" || callee.Signature.Recv() == nil {
+				return
+			}
+			n++
+			if !config[callee.Name()] {
+				return
+			}
+			r.FuncsAnalysed[fnName(fn)] = true
+			key := fnName(fn) + ":" + callee.Name()
+			local := true
+			var walk func(v ssa.Value, d int)
+			seen := map[ssa.Value]bool{}
+			walk = func(v ssa.Value, d int) {
+				v = strip(v)
+				if seen[v] || d > 8 {
+					return
+				}
+				seen[v] = true
+				switch x := v.(type) {
+				case *ssa.Extract:
+					walk(x.Tuple, d+1)
+				case *ssa.Phi:
+					for _, e := range x.Edges {
+						walk(e, d+1)
+					}
+				case *ssa.Call:
+					f := x.Call.StaticCallee()
+					if f == nil || f.Pkg == nil || f.Pkg.Pkg.Path() != "regexp" || f.Signature.Recv() != nil {
+						local = false
+					}
+				case *ssa.UnOp:
+					if a, ok := x.X.(*ssa.Alloc); ok && x.Op == token.MUL {
+						for _, st := range cellStores(a) {
+							walk(st.Val, d+1)
+						}
+						return
+					}
+					local = false
+				default:
+					local = false
+				}
+			}
+			walk(c.Common().Args[0], 0)
+			if local {
+				r.ok("K-SHARED", key, w.instrPos(in), "applied to a regexp compiled in this function")
+			} else {
+				r.bad("K-SHARED", key, w.instrPos(in), fmt.Sprintf("%s() is applied to a regexp that was not compiled in this function (it comes from the pattern cache or a caller): the object is shared by all evaluations and goroutines using the pattern, the call changes how they match and races with them", callee.Name()))
+			}
+		})
+	}
+	if n == 0 {
+		r.note("K-SHARED: no method of *regexp.Regexp is called in the package")
+	} else {
+		r.ok("K-SHARED", "census", "", fmt.Sprintf("%d calls of *regexp.Regexp methods examined", n))
+	}
 }
